@@ -6,6 +6,7 @@ import Model.RunLoop
 import Proofs.RunLoop
 import Model.Metadata
 import Proofs.Metadata
+import Proofs.MetaFields
 
 namespace Props.C15
 open Model.Scan Model.Run Proofs.Run
@@ -103,5 +104,31 @@ example : (nextRun evenIdx { all := true } { cwnm := true } [["a"], ["b"], [], [
   decide
 example : (collectRun evenIdx { all := true } { unmatchedAvail := true } [["a"], ["b"], [], ["c"]] { ms := 0 }).2.2.unmatchedIdx
     = [1, 2, 3] := by decide
+
+/-- **fields**: an outer comment made of free text (no colon, ending in white space) followed by
+    `key: value` fields — keys of word characters, values of any characters but a colon that do
+    not begin or end with white space, fields separated by white space, keys distinct — yields
+    exactly those fields in `metadata`, in order, values trimmed. `isalnum`/`isspace` are whatever
+    Python says for each character (they are part of `MChar`). -/
+theorem c15_fields (colon : Model.Meta.MChar) (hc : colon.c = ':') (free : Model.Meta.MStr)
+    (fs : List Proofs.MetaFields.Field) (hfree : Proofs.MetaFields.FreeOK free)
+    (hwf : ∀ f ∈ fs, Proofs.MetaFields.WFField f) (hsep : Proofs.MetaFields.Separated fs)
+    (hnd : (fs.map (·.key)).Nodup) :
+    Model.Meta.collect (free ++ Proofs.MetaFields.render colon fs) = fs.map (fun f => (f.key, some f.val)) :=
+  Proofs.MetaFields.collect_fields colon hc free fs hfree hwf hsep hnd
+
+/-! Non-vacuity: `note id: x1 description: two words` -/
+section demo
+open Model.Meta
+private def ch (c : Char) : MChar := { c := c, alnum := c.isAlphanum, space := c == ' ' || c == '\n' }
+private def str (s : String) : MStr := s.toList.map ch
+
+example : collect (str "note id: x1 description: two words") =
+    [(str "id", some (str "x1")), (str "description", some (str "two words"))] := by decide
+
+example : Proofs.MetaFields.WFField { key := str "id", ws := str " ", val := str "x1", sep := str " " } :=
+  { key_ne := by decide, key_ok := by decide, ws_ok := by decide, val_ok := by decide,
+    val_head := ⟨ch 'x', [ch '1'], rfl, by decide⟩, sep_ok := by decide, strip_val := by decide, strip_key := by decide }
+end demo
 
 end Props.C15
